@@ -125,8 +125,13 @@ def close(x, y, tol=1e-5):
 # ---------------------------------------------------------------------------------------
 def check_onpolicy(tb: Tables, script, obs, acts, rews, dones, logps, vals, pstates, masks,
                    adv, ret, s0, final_s, final_t, final_tl, final_c, gamma, lam,
-                   init_t=None, init_tl=None, init_c=None):
+                   init_t=None, init_tl=None, init_c=None, trace_actions=False, lp_eval=None, lp_eval_nomask=None):
     """Validate B recorded on-policy streams against the reference collector.
+
+    trace_actions=True (real, key-driven policies): the action the policy chose is read back from the trace (the row
+    stores it) instead of a script, policy-state checks are skipped (stateless policies) and the policy's own
+    log-probability of the stored sample is supplied as lp_eval[B,T] (computed by the real evaluate_action with the
+    recorded mask; lp_eval_nomask = without a mask); tb.V then holds the real policy's value of every observation.
 
     script [B,L,...]; obs [B,T(,S)]; acts [B,T,...]; rews/dones/logps/vals/adv/ret [B,T];
     pstates [B,T] stored policy counters; masks [B,T,A] or None; s0 [B] initial env state index
@@ -153,7 +158,7 @@ def check_onpolicy(tb: Tables, script, obs, acts, rews, dones, logps, vals, psta
         add(np.asarray(init_tl) != 0, -1, "C04/reset/timelimit-count", lambda i: f"TimeLimit count after reset {init_tl[i]}")
     if init_c is not None:
         add(np.asarray(init_c) != 0, -1, "C04/reset/policy-state", lambda i: f"policy counter after reset {init_c[i]}")
-    L = script.shape[1]
+    L = script.shape[1] if script is not None else 1
     exp_rew = np.zeros((B, Tn))
     exp_val = np.zeros((B, Tn))
     exp_done = np.zeros((B, Tn), dtype=bool)
@@ -169,8 +174,9 @@ def check_onpolicy(tb: Tables, script, obs, acts, rews, dones, logps, vals, psta
         ob = np.asarray(obs[:, j], dtype=np.float64)
         bad = ~(np.all((ob == exp_obs).reshape(B, -1), axis=1))
         add(bad, j, "C04/row/observation", lambda i: f"step {j}: stored observation {np.asarray(obs[i, j]).tolist()} but the environment was in state {s[i]}")
-        add(np.asarray(pstates[:, j]) != c, j, "C04/row/policy-state", lambda i: f"step {j}: stored policy state {pstates[i, j]}, policy was in state {c[i]}")
-        a_raw = script[b, c % L]
+        if not trace_actions:
+            add(np.asarray(pstates[:, j]) != c, j, "C04/row/policy-state", lambda i: f"step {j}: stored policy state {pstates[i, j]}, policy was in state {c[i]}")
+        a_raw = acts[:, j] if trace_actions else script[b, c % L]
         a_clip = clip_np(a_raw, tb.act_kind)
         clipped = np.any((np.asarray(a_raw, dtype=np.float64) != np.asarray(a_clip, dtype=np.float64)).reshape(B, -1), axis=1)
         stats["clipped"] += int(clipped.sum())
@@ -194,11 +200,18 @@ def check_onpolicy(tb: Tables, script, obs, acts, rews, dones, logps, vals, psta
             if masks is not None:
                 add(np.ones(B, bool), j, "C04/row/mask-invented", lambda i: f"step {j}: a mask was recorded but the environment offers none")
         # the policy's own value / log-prob for the stored observation and *stored* action
-        lp_stored_action = tb.LP0[b, s] - penalty_np(a_st, tb.act_kind) - 8.0 * code
-        lp_nomask = tb.LP0[b, s] - penalty_np(a_st, tb.act_kind)
+        if trace_actions:
+            lp_stored_action = np.asarray(lp_eval[:, j], dtype=np.float64)
+            lp_nomask = np.asarray(lp_eval_nomask[:, j], dtype=np.float64) if lp_eval_nomask is not None else lp_stored_action
+            if tb.has_mask and tb.act_kind == "discrete":
+                allowed = tb.M[b, s, np.asarray(a_st).astype(int) % tb.A]
+                add(~allowed, j, "C04/row/masked-action-chosen", lambda i: f"step {j}: the policy chose action {np.asarray(a_st[i]).tolist()} although the environment's mask is {tb.M[i, s[i]].tolist()}")
+        else:
+            lp_stored_action = tb.LP0[b, s] - penalty_np(a_st, tb.act_kind) - 8.0 * code
+            lp_nomask = tb.LP0[b, s] - penalty_np(a_st, tb.act_kind)
         bad_lp = ~close(logps[:, j], lp_stored_action)
-        if tb.has_mask:
-            add(bad_lp & close(logps[:, j], lp_nomask), j, "C04/row/mask-not-applied", lambda i: f"step {j}: stored log-prob {logps[i, j]} is the unmasked one; environment mask {tb.M[i, s[i]].tolist()}")
+        if tb.has_mask and (not trace_actions or lp_eval_nomask is not None):
+            add(bad_lp & close(logps[:, j], lp_nomask) & ~close(lp_nomask, lp_stored_action), j, "C04/row/mask-not-applied", lambda i: f"step {j}: stored log-prob {logps[i, j]} is the unmasked one; environment mask {tb.M[i, s[i]].tolist()}")
             bad_lp = bad_lp & ~close(logps[:, j], lp_nomask)
         add(bad_lp & clipped, j, "C04/reeval/logprob/out-of-bounds-action", lambda i: f"step {j}: stored action {np.asarray(a_st[i]).tolist()} (policy chose {np.asarray(a_raw[i]).tolist()}) has log-prob {lp_stored_action[i]} under the policy, stored {logps[i, j]}: first PPO ratio = {np.exp(lp_stored_action[i] - logps[i, j]):.4f} != 1")
         add(bad_lp & ~clipped, j, "C04/reeval/logprob", lambda i: f"step {j}: stored log-prob {logps[i, j]} != policy's log-prob {lp_stored_action[i]} of stored action {np.asarray(a_st[i]).tolist()} in state {s[i]}")
@@ -247,7 +260,8 @@ def check_onpolicy(tb: Tables, script, obs, acts, rews, dones, logps, vals, psta
     add(np.asarray(final_t) != t, Tn, "C04/carry/env-clock", lambda i: f"carried env clock {final_t[i]}, reference {t[i]}")
     if final_tl is not None:
         add(np.asarray(final_tl) != t, Tn, "C04/carry/timelimit-count", lambda i: f"carried TimeLimit count {final_tl[i]}, reference {t[i]}")
-    add(np.asarray(final_c) != c, Tn, "C04/carry/policy-state", lambda i: f"carried policy counter {final_c[i]}, reference {c[i]} (policy must restart after a done step)")
+    if not trace_actions:
+        add(np.asarray(final_c) != c, Tn, "C04/carry/policy-state", lambda i: f"carried policy counter {final_c[i]}, reference {c[i]} (policy must restart after a done step)")
     # GAE of the *recorded* rows (their own fidelity is judged above) with the reference's bootstrap
     last_v = tb.V[b, s_fin]
     e_adv, e_ret = gae_np(rews, vals, dones, last_v, gamma, lam)
